@@ -54,7 +54,7 @@ func genCase(t *rapid.T, env *ev.Env) Case {
 	for i := 0; i < ni; i++ {
 		c.Inter = append(c.Inter, Interfere{
 			After: rapid.IntRange(0, total).Draw(t, "after"),
-			Kind:  rapid.SampledFrom([]string{"overwrite", "overwrite", "delete", "deleteVersion", "gc", "gc", "transition", "putOther", "append"}).Draw(t, "ikind"),
+			Kind:  rapid.SampledFrom([]string{"overwrite", "overwrite", "delete", "deleteVersion", "gc", "gc", "transition", "putOther", "append", "cancel"}).Draw(t, "ikind"),
 		})
 	}
 	return c
@@ -126,7 +126,12 @@ func runCase(env *ev.Env, c Case) (o ev.Outcome) {
 		ranges = []storage.ByteRange{{Start: &s, End: &e}}
 		want = content[s:e]
 	}
-	obj, readers, err := st.GetObject(ctx, bn, key, ranges, nil)
+	// the download runs under its own context: the interferer "cancel" cancels it in mid-stream (a client that
+	// goes away, a deadline). A cancelled download may fail; it must not end short with a clean EOF.
+	getCtx, cancelGet := context.WithCancel(ctx)
+	defer cancelGet()
+	cancelled := false
+	obj, readers, err := st.GetObject(getCtx, bn, key, ranges, nil)
 	if err != nil {
 		o.Failf("GetObject before any interference failed: %v", err)
 		return
@@ -164,6 +169,14 @@ func runCase(env *ev.Env, c Case) (o ev.Outcome) {
 				interferedMidway = true
 			}
 			o.Count("interfere:"+in.Kind, 1)
+			if in.Kind == "cancel" {
+				cancelGet()
+				cancelled = true
+				if len(got) > 0 && len(got) < len(want) {
+					o.Class("download-context-cancelled-mid-stream")
+				}
+				continue
+			}
 			// an interfering operation may legitimately wait for the open download (part locks of the
 			// erasure-coding store): run it beside the reader and go on reading if it has not finished in time
 			in := in
@@ -212,7 +225,7 @@ func runCase(env *ev.Env, c Case) (o ev.Outcome) {
 	}
 	if readErr != io.EOF {
 		o.Class("ended-with-error")
-		if c.Stack == "P1" {
+		if c.Stack == "P1" && !cancelled {
 			// SQL-backed part store: the read transaction pins the snapshot, the full old content must arrive
 			o.Failf("SQL-backed download failed after %d of %d bytes: %v", len(got), len(want), readErr)
 			return
